@@ -63,7 +63,8 @@ func (m *MemoryTokenStorage) Save(id []byte, context common.TokenContext, data [
 	if ok {
 		return common.ErrTokenExists
 	}
-	ctxMap[idStr] = &memoryTokenData{data, common.NewTokenMetadata()}
+	// the storage keeps its own copy: callers pass the value on (e.g. into a Bind packet that is zeroized after use)
+	ctxMap[idStr] = &memoryTokenData{append([]byte{}, data...), common.NewTokenMetadata()}
 	return nil
 }
 
@@ -91,7 +92,8 @@ func (m *MemoryTokenStorage) Get(id []byte, context common.TokenContext) ([]byte
 	if value.metadata.AccessedBefore(now, m.accessGranularity) {
 		value.metadata.Accessed = now
 	}
-	return value.data, nil
+	// and hands out copies, for the same reason
+	return append([]byte{}, value.data...), nil
 }
 
 // Stat returns metadata of a token entry.
